@@ -9,7 +9,11 @@ LEVEL_TEXT = ("proof (Coq) about a model of RetentionScanner.DoScan and of Start
               "clients, step-bounded stop after cancellation, inert run loop for period <= 0 — tied to the code by running the real "
               "scanner on both real stores with generated age distributions and forced interleavings; promptness is stated in "
               "steps, wall-clock time only enters through generous deadlines")
-LEVEL_NOTE = ("both stores are represented by Model/StoreSpec.v (they refine it: property C07; atomicity of store operations: C09); "
+LEVEL_NOTE = ("the scan and the run loop run over Model/StoreSpec.v; scan_over_storespec / loop_over_storespec prove that a scan is one Lst per "
+              "mailbox plus one Remove (Kth k) per expired snapshot entry and that the loop's store is the run of the clients' and the scans' "
+              "operations, and scan_over_store_models / loop_over_store_models compose this with C07's refinement theorems (run_mem = run_spec; "
+              "run_file = run_spec under c_max = 0 and file_fresh): removals and the listing afterwards are the same over the memory-store model, "
+              "the file-store model and StoreSpec (atomicity of store operations: C09); "
               "the order in which a back-end enumerates mailboxes is a parameter of the model and is taken from the observation; "
               "time: message dates are inputs, ages are kept >= 2 s away from the cutoff, the clock is assumed monotone")
 TECHNIQUE = "machine-checked proof in Coq + model/code correspondence check"
@@ -23,7 +27,7 @@ RULE = ("scan: generated age distributions over 0-5 mailboxes (incl. emptied one
         "a third cancels the context during the n-th callback; start: the run loop with period <= 0 and with cancellation. asm12: the assembled server (server.FullAssembly + Services.Start, child process) serves for 1.5 s a file store that already holds messages of mixed ages, with period 0 and positive periods: afterwards no unexpired message (period 0: no message at all) may be missing; the surviving messages are compared with what the run-loop model leaves after the seconds served. "
         "distinct = distinct input line; non-trivial = the store holds at least one message before the scan.")
 TRUSTED = [
-    "Model/StoreSpec.v stands for both stores (C07), store operations are atomic (C09)",
+    "the tie of the store models to the Go stores is C07's correspondence check (scan_over_store_models ties this property's model to those models); store operations are atomic (C09)",
     "the forced interleaving is produced by a wrapper around the storage.Store handed to the real RetentionScanner and by the "
     "verifhook points file.visit.l2/l3 inside VisitMailboxes and mem.wm.lock inside withMailbox",
     "monotone clock: a message delivered after the scan started is younger than the cutoff",
